@@ -1,5 +1,5 @@
 add("C18","exploration",
- "runtime monitoring: seeded list generator + oracle over the discovery API's output in worker processes; real dcat against fake SSH servers counting connections per port; reconnect tier: dtail against fake servers that drop every connection, monitors over their connection log",
+ "runtime monitoring: seeded list generator + oracle over the discovery API's output in worker processes; real dcat against fake SSH servers counting connections per port; reconnect tier: dtail against fake servers that drop every connection, monitors over their connection log; more long-lived servers than the connection throttle admits at a time",
  "Held on the generated lists (sizes 0..5000, all duplicate layouts, comma/file/plug-in+regex) and on the e2e runs listed in the evidence; nothing is claimed for list shapes outside the generator.",
  "Trusted: Go regexp, sort; assumes blank entries are out of scope; the /regex/ filter is reached through a verif-tagged plug-in module.",
  "DESIGN.md §2 C18")
@@ -29,17 +29,17 @@ add("C12","exploration",
  "Trusted: Go regexp; C03's reference context model; patterns without NUL/0xAC.",
  "DESIGN.md §2 C12")
 add("C16","exploration",
- "runtime monitoring: seeded message/stream generator; Colorfy (alone and from 12 goroutines at once) and the real client handlers run in crash-isolated child processes (coloured vs uncoloured stdout compared after stripping SGR sequences; uncoloured output compared with the message sequence); a harness-controlled SSH server plays the streams to the real dcat/dmap/dtailhealth binaries",
+ "runtime monitoring: seeded message/stream generator; Colorfy (alone and from 12 goroutines at once) and the real client handlers run in crash-isolated child processes (coloured vs uncoloured stdout compared after stripping SGR sequences; uncoloured output compared with the message sequence); harness-controlled SSH servers play the streams to the real dcat/dmap/dtailhealth binaries (one server, and six at once with client log lines in between)",
  "Held on the generated messages and streams counted in the evidence.",
  "Trusted: the SGR-strip regexp; both sides are stripped when the message itself contains ESC.",
  "DESIGN.md §2 C16")
 add("C08","exploration",
- "runtime monitoring: seeded filesystem-layout/rule/request generator (per-user, default, empty and other users' rule lists; every symlink re-pointed between two sessions of one server process); HasFilePermission verdicts observed in worker processes on real directory trees, and real dcat sessions over SSH against servers configured with the rules (unique content token per file); oracle = independent statement of the rule semantics on the EvalSymlinks+Abs path",
+ "runtime monitoring: seeded filesystem-layout/rule/request generator (per-user, default, empty and other users' rule lists; every symlink re-pointed between two sessions of one server process; a restricted user grepping while another user reads denied files on the same server: no foreign line may reach him); HasFilePermission verdicts observed in worker processes on real directory trees, and real dcat sessions over SSH against servers configured with the rules (unique content token per file); oracle = independent statement of the rule semantics on the EvalSymlinks+Abs path",
  "Held on the generated (tree, rules, request) triples counted in the evidence; both directions (allowed served, denied discloses nothing).",
  "Trusted: filepath.EvalSymlinks/Abs/Glob, Go regexp; static layouts (no TOCTOU claim).",
  "DESIGN.md §2 C08")
 add("C09","exploration",
- "runtime monitoring: seeded authorized_keys/credential generator (incl. lines of 4-13 KB); real SSH handshakes (x/crypto/ssh client in the harness, chosen source addresses) against an in-process dtail server whose key files are rewritten between attempts; oracle = the statement's acceptance rule; health sessions are fed commands and their byte stream is scanned for file content",
+ "runtime monitoring: seeded authorized_keys/credential generator (incl. lines of 4-13 KB; servers with the test-mode switch spelled off); real SSH handshakes (x/crypto/ssh client in the harness, chosen source addresses) against an in-process dtail server whose key files are rewritten between attempts; oracle = the statement's acceptance rule; health sessions are fed commands and their byte stream is scanned for file content",
  "Held on the generated key files (incl. multi-revision sequences with preserved/older mtime), the full password x user x source address grid, and the health sessions counted in the evidence.",
  "Trusted: x/crypto/ssh (shared by harness and subject); CRLF and junk lines are outside 'well-formed'.",
  "DESIGN.md §2 C09")
@@ -49,12 +49,12 @@ add("C14","exploration",
  "Trusted: x/crypto/ssh, porcupine v1.3.0; 'served' = answers a global request after authentication; client-side closes may linearize any time after their call.",
  "DESIGN.md §2 C14")
 add("C10","exploration",
- "runtime monitoring: grammar-aware hostile-input generator; inputs are applied to fresh real ServerHandlers in crash-isolated worker processes (input logged before application; each process starts cold with simultaneous many-file requests under a 10-rule permission list; mapreduce sessions over compressed files whose stream breaks) and sent over SSH to a real server while a canary session of another user and health logins observe liveness; oracle = process survival, canary stream intact, health answers OK",
+ "runtime monitoring: grammar-aware hostile-input generator; inputs are applied to fresh real ServerHandlers in crash-isolated worker processes (input logged before application; each process starts cold with simultaneous many-file requests under a 10-rule permission list; mapreduce sessions over compressed files whose stream breaks and with the generic log format) and sent over SSH to a real server while a canary session of another user and health logins observe liveness; oracle = process survival, canary stream intact, health answers OK",
  "Held on the hostile inputs counted in the evidence (command x argument count x fault-class cells); no behavioural expectation beyond survival and an error/close for the offender.",
  "Trusted: the harness SSH client; crash attribution names the culprit and its five predecessors.",
  "DESIGN.md §2 C10")
 add("C13","exploration",
- "runtime monitoring: seeded session histories (open/drain/cancel-while-running/cancel-while-waiting/bursts/bursts of sessions hanging up right after their command) driven by a harness SSH client against in-process servers; hook-free observation of the files the server process holds open (/proc/<pid>/fd sampled every 5 ms and at quiescent points) plus an online monitor over the limiter hook trace (acquisitions - releases within [0, limit], every release preceded by its acquisition)",
+ "runtime monitoring: seeded session histories (open/drain/cancel-while-running/cancel-while-waiting/bursts/bursts of sessions hanging up right after their command) driven by a harness SSH client against in-process servers, plus the server's own continuous jobs; hook-free observation of the files the server process holds open (/proc/<pid>/fd sampled every 5 ms and at quiescent points) plus an online monitor over the limiter hook trace (acquisitions - releases within [0, limit], every release preceded by its acquisition)",
  "Held on the histories counted in the evidence (cat limit 1-3, tail limit 1-2, two users); cancellations while waiting actually achieved are counted.",
  "Trusted: /proc fd view; a blocked cat reader keeps its file open; hook call sites srv.lim.* (the /proc observation decides, the trace cross-checks).",
  "DESIGN.md §2 C13")
@@ -74,12 +74,12 @@ add("C06","exploration",
  "Trusted: hook call sites for attribution only (the CSV decides); c06.cmd-race (a read command received after the aggregator and session had finished) is accepted only with that trace pattern, no excess, and deficits on servers showing it; files of received commands missing from a result are violations.",
  "DESIGN.md §2 C06")
 add("C04","exploration",
- "runtime monitoring: the real tail reader follows real files in worker processes while the harness appends through seeded write() chunkers, starting only once the reader's descriptor offset (/proc fdinfo) shows it is positioned; delivered lines (content, running number, transmission percentage) are checked against the appended lines; real dtail (serverless and over SSH) for a sample, and 10 s follows with a continuous writer and a delay at the hook point where the follower sees EOF (housekeeping rounds), and follows interrupted by SIGINT with a slow consumer (order of the delivered lines)",
+ "runtime monitoring: the real tail reader follows real files in worker processes while the harness appends through seeded write() chunkers, starting only once the reader's descriptor offset (/proc fdinfo) shows it is positioned; delivered lines (content, running number, transmission percentage) are checked against the appended lines; real dtail (serverless and over SSH) for a sample, and 10 s follows with a continuous writer and a delay at the hook point where the follower sees EOF (housekeeping rounds), and follows interrupted by SIGINT with a slow consumer (order of the delivered lines); other sessions that end early or are killed run on the followed server meanwhile",
  "Held on the follows counted in the evidence (chunkers x sizes x queue regimes; drops actually provoked in regime b are counted).",
  "Trusted: /proc fdinfo offsets; regime a = queue can never be full; regime b without filter; append-only writers.",
  "DESIGN.md §2 C04")
 add("C15","fault_enumeration",
- "runtime monitoring with fault injection: kill points of the real dmap are enumerated (every out.* hook event of a reference run is re-run with SIGKILL delivered exactly there; under strace SIGKILL is injected at the N-th syscall touching the four paths and the position hit is read back; write faults: from the N-th write on every write to those paths fails with ENOSPC), after each kill the on-disk state is judged; a watcher re-reads the outfile continuously during un-killed runs",
+ "runtime monitoring with fault injection: kill points of the real dmap are enumerated (every out.* hook event of a reference run is re-run with SIGKILL delivered exactly there; under strace SIGKILL is injected at the N-th syscall touching the four paths and the position hit is read back; write faults: from the N-th write on every write to those paths fails with ENOSPC); the non-cumulative client of the server's continuous jobs runs in worker processes, is cancelled at various points and watched the same way, after each kill the on-disk state is judged; a watcher re-reads the outfile continuously during un-killed runs",
  "All listed hook kill points of the quick scenarios are hit (counts in the evidence); syscall-level positions are enumerated for the small scenarios and listed as hit / not hit.",
  "Trusted: strace's path filter and injection; hook call sites out.* (strace tier is hook-free); a kill inside one write(2) is not separately reachable.",
  "DESIGN.md §2 C15")
